@@ -370,6 +370,9 @@ func c01Run(c *core.Ctx) *core.Result {
 		} else {
 			abort()
 		}
+		// writer goroutines of the aborted Receive may still be finishing an
+		// entry: the leftovers are what is there once they have ended
+		leakCheck()
 		r.Count("priors_left_by_an_aborted_transfer", 1)
 	}
 	old, err := tree.Snapshot(dest, tree.SnapOpt{})
@@ -378,6 +381,34 @@ func c01Run(c *core.Ctx) *core.Result {
 		return r
 	}
 	ropt := fsutil.ReceiveOpt{Merge: merge}
+	if !unpriv && R.P(1, 6) {
+		// a receiver-side filter that rewrites ownership and mode (what the
+		// repository's own tests do with uid/gid): dest must equal the view as
+		// rewritten by the filter
+		flt := func(p string, st *types.Stat) bool {
+			if st.Uid == 1234 {
+				st.Uid = 4242
+			}
+			st.Gid = st.Gid/2 + 7
+			if os.FileMode(st.Mode)&os.ModeSymlink == 0 {
+				st.Mode &^= 0o002
+			}
+			return true
+		}
+		ropt.Filter = flt
+		fv := &tree.Tree{}
+		for i := range view.Entries {
+			e := &view.Entries[i]
+			st := e.Stat()
+			flt(st.Path, st)
+			ne := tree.FromStat(st)
+			ne.Data, ne.Ino, ne.Nlink, ne.Dev = e.Data, e.Ino, e.Nlink, e.Dev
+			fv.Entries = append(fv.Entries, ne)
+		}
+		view = fv
+		cfg += " filter=rewrite"
+		r.Count("transfers_with_rewriting_filter", 1)
+	}
 	var nrec *notifyRec
 	if R.P(1, 2) {
 		nrec = newNotifyRec()
